@@ -190,6 +190,10 @@ func init() {
 				items = append(items, explore("C01", sc, b, true))
 			}
 			for _, sc := range FamilySharp(tier) {
+				if sc.Name == "sharp-launch-tol-c3" && tier != "thorough" {
+					items = append(items, explore("C01", sc, b, true)) // five sequences, c=3: bound 2 does not finish within the quick cap
+					continue
+				}
 				items = append(items, explore("C01", sc, b+1, true))
 			}
 			// timeouts, retries and late answers inside a sequence (the next action must still wait for a real success)
